@@ -676,7 +676,7 @@ func runC16(c *Ctx) {
 	}
 
 	// ------------------------------------------------------------ F10
-	c.Rule("C16.F10", "GATE", "a call that moves no value to an account that does not exist changes nothing — also beneath a STATICCALL, where CALL with zero value is allowed exactly for that reason: in EVM.Call the creation of the target account (CreateAccount) is reached only on paths that established a non-zero value or a precompiled target. Otherwise code running under STATICCALL creates an account and the caller observes it (EXTCODEHASH of the target changes from 0 to the empty-code hash) although the static frame succeeded, so no revert removes it")
+	c.Rule("C16.F10", "GATE", "a call that moves no value to an account that does not exist changes nothing — also beneath a STATICCALL, where CALL with zero value is allowed exactly for that reason: in EVM.Call the creation of the target account (CreateAccount) is reached only on paths that established a non-zero value — a precompile needs no account to run, and under YOUChain's genesis the precompile addresses do not exist, so that case is the normal one. Otherwise code running under STATICCALL creates an account and the caller observes it (EXTCODEHASH of the target changes from 0 to the empty-code hash) although the static frame succeeded, so no revert removes it")
 	c.Min(1)
 	{
 		call := w.Fn("core/vm", "EVM", "Call")
@@ -716,26 +716,6 @@ func runC16(c *Ctx) {
 								}
 							}
 						}
-					case "isnil":
-						// a precompile was found for the address
-						if !a.Truth {
-							if _, isLk := stripConv(a.X).(*ssa.Lookup); isLk {
-								ok = true
-							}
-							if ex, isEx := stripConv(a.X).(*ssa.Extract); isEx {
-								if _, isLk := ex.Tuple.(*ssa.Lookup); isLk {
-									ok = true
-								}
-							}
-						}
-					case "true":
-						if a.Truth {
-							if ex, isEx := stripConv(a.X).(*ssa.Extract); isEx && ex.Index == 1 {
-								if _, isLk := ex.Tuple.(*ssa.Lookup); isLk {
-									ok = true
-								}
-							}
-						}
 					}
 				}
 				if !ok {
@@ -748,7 +728,7 @@ func runC16(c *Ctx) {
 				c.Undecided(cons, ci.Pos(), "paths to CreateAccount could not be enumerated")
 				continue
 			}
-			c.Check(cons, ci.Pos(), bad == 0 && nPaths > 0, ifelse(bad == 0 && nPaths > 0, fmt.Sprintf("all %d paths to the creation have a non-zero value or a precompiled target", nPaths), fmt.Sprintf("%d of %d paths create the target account of a call that transfers nothing: a zero-value CALL beneath a STATICCALL changes the set of existing accounts and the calling contract observes it", bad, nPaths)))
+			c.Check(cons, ci.Pos(), bad == 0 && nPaths > 0, ifelse(bad == 0 && nPaths > 0, fmt.Sprintf("all %d paths to the creation have a non-zero value", nPaths), fmt.Sprintf("%d of %d paths create the target account of a call that transfers nothing: a zero-value CALL beneath a STATICCALL changes the set of existing accounts and the calling contract observes it", bad, nPaths)))
 		}
 		if nCA == 0 {
 			c.Pass(fname(call)+"#target-created-only-for-value-or-precompile", call.Pos(), "EVM.Call does not create accounts itself")
